@@ -5,6 +5,7 @@ import SphericalVerif.Gen.HornerKern
 import SphericalVerif.Gen.CPowKern
 import SphericalVerif.Gen.RotHKern
 import SphericalVerif.Gen.EulerKern
+import SphericalVerif.Gen.MethodKern
 import SphericalVerif.Model.Assemble
 import SphericalVerif.Model.W3j
 import SphericalVerif.Spec.Orderings
@@ -28,9 +29,9 @@ abbrev M := HMem Float
 def runHF (L P : Nat) (c s dflt : Float) : M :=
   runH (α := Float) (μ := M) L P c s ({ map := ∅, dflt := dflt } : M)
 
-/-- the GENERATED kernels (Gen/HKern.lean) on a flat hash-map memory; tables from the generated element formulas.
-    Array ids: Hwedge = 0, Hv = 1, Hextra = 2. -/
-def genHState (L P : Nat) (c s dflt : Float) : HFMem Float :=
+/-- the coefficient tables `(a, b, d, g, h)` of a calculator with `ell_max = L`, from the generated element formulas, listed in
+    the documented orderings -/
+def genTables (L : Nat) : (Int → Float) × (Int → Float) × (Int → Float) × (Int → Float) × (Int → Float) :=
   let LI : Int := L
   let nm := Spec.nmRange (LI+1)
   let nabsm := Spec.nabsmRange (LI+1)
@@ -38,11 +39,15 @@ def genHState (L P : Nat) (c s dflt : Float) : HFMem Float :=
   let tabOf (xs : List Float) : Int → Float :=
     let arr := xs.toArray
     fun i => if i < 0 then nanF else arr.getD i.toNat nanF
-  let a := tabOf (nabsm.map (fun t => Gen.tab_a (α := Float) t.1 t.2))
-  let b := tabOf (nm.map (fun t => Gen.tab_b (α := Float) t.1 t.2))
-  let d := tabOf (nm.map (fun t => Gen.tab_d (α := Float) t.1 t.2))
-  let g := tabOf (nm.map (fun t => Gen.tab_g (α := Float) t.1 t.2))
-  let h := tabOf (nm.map (fun t => Gen.tab_h (α := Float) t.1 t.2))
+  (tabOf (nabsm.map (fun t => Gen.tab_a (α := Float) t.1 t.2)), tabOf (nm.map (fun t => Gen.tab_b (α := Float) t.1 t.2)),
+   tabOf (nm.map (fun t => Gen.tab_d (α := Float) t.1 t.2)), tabOf (nm.map (fun t => Gen.tab_g (α := Float) t.1 t.2)),
+   tabOf (nm.map (fun t => Gen.tab_h (α := Float) t.1 t.2)))
+
+/-- the GENERATED kernels (Gen/HKern.lean) on a flat hash-map memory; tables from the generated element formulas.
+    Array ids: Hwedge = 0, Hv = 1, Hextra = 2. -/
+def genHState (L P : Nat) (c s dflt : Float) : HFMem Float :=
+  let LI : Int := L
+  let (a, b, d, g, h) := genTables L
   let st0 : HFMem Float := { map := ∅, dflt := dflt }
   Gen.Wigner_H (α := Float) (φ := HFMem Float) g h LI P a b d ⟨c, s⟩ 0 1 2 st0
 
@@ -151,6 +156,55 @@ def step (line : String) : String :=
     let st0 : HFMem Float := { map := ∅, dflt := Float.ofBits 0x7FF8000000000BAD }
     let st := Gen.u_complex_powers (α := Float) (fun _ => ⟨bf re, bf im⟩) (M : Int) 3 1 ((M : Int) + 1) (fun _ => bf is) 64 st0
     join ((Array.range (M+1)).map (fun (i : Nat) => cxs (frdC (α := Float) st 3 ((i : Nat) : Int))))
+  | ["methD", L, ellmin, r0, r1, r2, r3, are, aim, isA, gre, gim, isG, dflt] =>
+    -- the GENERATED body of `Wigner.D`'s loop (Gen/MethodKern.lean): every kernel and the wiring from the source; all
+    -- arrays on one poisoned memory.  ids: Hwedge, Hv, Hextra = 0, 1, 2; 𝔇 = 3; zₐpowers = 4; zᵧpowers = 5; z = 6
+    let L := L.toNat!
+    let Rv : Array Float := #[bf r0, bf r1, bf r2, bf r3]
+    let (a, b, d, g, h) := genTables L
+    let st0 : HFMem Float := { map := ∅, dflt := bf dflt }
+    let ims := imsqrtTable [(bf are, bf aim, bf isA), (bf gre, bf gim, bf isG)]
+    let st := Gen.Wigner_D_rotor (α := Float) (fun i => Rv.getD i.toNat 0.0) 6 g h L L a b d 0 1 2 3 4 ims 5 ellmin.toInt! st0
+    let n := (Gen.WignerDsize ellmin.toInt! L L).toNat
+    String.intercalate " " ((List.range n).map (fun (i : Nat) => cxs (frdC (α := Float) st 3 ((i : Nat) : Int))))
+  | ["methY", L, P, ellmin, s, r0, r1, r2, r3, are, aim, isA, pre, pim, dflt] =>
+    -- the GENERATED body of `Wigner.sYlm`'s loop; `z[2]**abs(s)` (numpy, not jitted) supplied by the harness
+    let L := L.toNat!; let P := P.toNat!
+    let Rv : Array Float := #[bf r0, bf r1, bf r2, bf r3]
+    let (a, b, d, g, h) := genTables L
+    let st0 : HFMem Float := { map := ∅, dflt := bf dflt }
+    let ims := imsqrtTable [(bf are, bf aim, bf isA)]
+    let st := Gen.Wigner_sYlm_rotor (α := Float) (fun i => Rv.getD i.toNat 0.0) 6 g h L P a b d 0 1 2 3 4 ims
+      (fun _ _ => ⟨bf pre, bf pim⟩) s.toInt! ellmin.toInt! st0
+    let n := (Gen.Ysize ellmin.toInt! L).toNat
+    String.intercalate " " ((List.range n).map (fun (i : Nat) => cxs (frdC (α := Float) st 3 ((i : Nat) : Int))))
+  | "methevalH" :: L :: P :: ellmin :: s :: ellMaxM :: r0 :: r1 :: r2 :: r3 :: pre :: pim :: ire :: iim :: dflt :: f =>
+    -- the GENERATED body of the Horner branch of `Wigner.evaluate`; one row of weights, one rotor
+    let L := L.toNat!; let P := P.toNat!
+    let Rv : Array Float := #[bf r0, bf r1, bf r2, bf r3]
+    let (a, b, d, g, h) := genTables L
+    let st0 : HFMem Float := { map := ∅, dflt := bf dflt }
+    let fa := parseCxArray f
+    let st0 := fwrC (α := Float) st0 3 0 ⟨bf ire, bf iim⟩
+    let st := Gen.Wigner_evaluate_rotor (α := Float) (fun i => Rv.getD i.toNat 0.0) 6 g h L P a b d 0 1 2 (cxFun fa) 3
+      ellmin.toInt! 0 ellMaxM.toInt! s.toInt! 1 (fa.size : Nat) (fun _ _ => ⟨bf pre, bf pim⟩) st0
+    cxs (frdC (α := Float) st 3 0)
+  | "methrotH" :: L :: s :: ellMaxM :: r0 :: r1 :: r2 :: r3 :: dflt :: rest =>
+    -- the GENERATED Horner branch of `Wigner.rotate` (one row)
+    let L := L.toNat!; let eM := ellMaxM.toNat!
+    let Rv : Array Float := #[bf r0, bf r1, bf r2, bf r3]
+    let (a, b, d, g, h) := genTables L
+    let st0 : HFMem Float := { map := ∅, dflt := bf dflt }
+    let pw := parseCxArray (rest.take (2*(2*eM+1)))
+    let f := parseCxArray (rest.drop (2*(2*eM+1)))
+    let n : Int := ((eM+1)*(eM+1) : Nat)
+    let st := Gen.Wigner_rotate_rotor (α := Float) (fun i => Rv.getD i.toNat 0.0) 6 g h L L a b d 0 1 2 (cxFun f) 3
+      0 0 eM s.toInt! 4 5 1 1 n n (fun _ m => cget pw (m + eM).toNat) st0
+    let lo := s.toInt!.natAbs
+    let out := (Spec.yRange 0 eM).map (fun t =>
+      if t.1.toNat < lo then cxs (⟨0.0, 0.0⟩ : Cx Float)
+      else cxs (frdC (α := Float) st 3 (t.1 * (t.1 + 1) + t.2)))
+    String.intercalate " " out
   | ["dfull", L, ellmin, c, s, dflt] =>
     let L := L.toNat!
     let st := runHF L L (bf c) (bf s) (bf dflt)
